@@ -316,5 +316,9 @@ func main() {
 	flag.Parse()
 	out = bufio.NewWriterSize(os.Stdout, 1<<20)
 	defer out.Flush()
+	if *prop == "C20" {
+		runC20(*seed, *count)
+		return
+	}
 	runProp(*prop, *seed, *count, *scheds, *dfs, *dfsCap)
 }
